@@ -65,17 +65,28 @@ def run(ctx):
     from bionumpy.datatypes import Interval, Bed6, LocationEntry, StrandedInterval, BedGraph
     from bionumpy.genomic_data.geometry import Geometry
     from bionumpy.genomic_data.genomic_sequence import GenomicSequence
-    from bnpmon.util import text_rows
+    from bnpmon.util import text_rows, lazy_selection
     rng = ctx.rng
     maxsize = ctx.pick(8, 30)
 
+    vrng = random.Random(ctx.seed * 1009 + ctx.shard)
+
     def tbl(ivs, strands=None):
-        ch = [x[0] for x in ivs]
-        a = np.array([x[1] for x in ivs], dtype=int)
-        b = np.array([x[2] for x in ivs], dtype=int)
-        if strands is None:
-            return Interval(ch, a, b)
-        return Bed6(ch, a, b, ["e%d" % i for i in range(len(ivs))], [0] * len(ivs), list(strands))
+        def build(rws):
+            ch = [x[0] for x in rws]
+            a = np.array([x[1] for x in rws], dtype=int)
+            b = np.array([x[2] for x in rws], dtype=int)
+            if strands is None:
+                return Interval(ch, a, b)
+            return Bed6(ch, a, b, [x[3] for x in rws], [0] * len(rws), [x[4] for x in rws])
+        rws = [tuple(x[:3]) for x in ivs] if strands is None else [tuple(x[:3]) + ("e%d" % i, st) for i, (x, st) in enumerate(zip(ivs, strands))]
+        if rws and vrng.random() < 0.3:
+            # a lazy row selection of a bigger table instead of a freshly built one
+            filler = (rws[0][0], 0, 1) if strands is None else (rws[0][0], 0, 1, "f", "+")
+            t, _ = lazy_selection(build, rws, vrng, lambda: filler)
+            ctx.count("lazy_selection_operands")
+            return t
+        return build(rws)
 
     def rows(data, with_strand=False):
         from bnpmon.util import chrom_names
